@@ -46,10 +46,10 @@ CLAIMED["C01"] = dict(
     "(C01_locate_errors_achieved for all 16 flag sets, C01_errors_achieved for all classes incl. the one aligning reversed strings; a second invariant on every DP cell within the error "
     "budget, cells left stale by the Ukkonen cut-off shown irrelevant; C01_threshold_tables discharges the hypothesis on thresholds for every non-negative non-decreasing table): hence "
     "true edit distance <= reported errors <= tolerance, the occurrence is genuine; for the comparers (anchored, no indels) the error count is exactly the Hamming distance (C01_comparer_exact); "
-    "for every class whose aligner may stop anywhere in the read (all except the anchored and the non-internal 3' adapters), indels enabled, the reported errors are EXACTLY the edit distance "
+    "for every class whose aligner may stop anywhere in the read (all except the anchored and the non-internal 3' adapters), indels enabled or disabled (indel cost 1 / 100000), the reported errors are EXACTLY the edit distance "
     "of the two reported intervals -- achieved, and no alignment of them is cheaper (C01_errors_exact, C01_locate_errors_minimal: lower-bound invariant on every DP cell over all admissible "
-    "starts, diagonal monotonicity of the edit distance for the Ukkonen cut-off). PARTIAL in one respect: the lower bound (errors <= true distance) for SuffixAdapter with indels, "
-    "NonInternalBackAdapter and for indels disabled on the DP classes is not a theorem; it is covered by the correspondence (model = Aligner.locate / match_to on all 16 flag sets and 8 "
+    "starts, diagonal monotonicity of the edit distance for the Ukkonen cut-off). PARTIAL in one respect: the lower bound (errors <= true distance) for SuffixAdapter with indels and "
+    "NonInternalBackAdapter is not a theorem; it is covered by the correspondence (model = Aligner.locate / match_to on all 16 flag sets and 8 "
     "classes) plus the textbook-distance oracle run on the implementation.",
     technique="Coq proof (two invariants over the column fold of a line-by-line model of Aligner.locate; inductive edit-script relation closed under reversal) + translators (tables, flags, scores) + extracted-model differential correspondence; oracle search",
     design="6/C01",
@@ -58,7 +58,7 @@ CLAIMED["C01"] = dict(
 
 CLAIMED["C02"] = dict(
     text="Theorems (coq/Properties/C02.v): for the comparers (anchored adapters, indels disabled) every occurrence at the anchored end within the Hamming tolerance is reported with exactly its "
-    "distance, an error-free one is removed exactly, and no prefilter intervenes; for regular 5', regular 3' and 'anywhere' adapters with indels, an error-free copy of the whole adapter "
+    "distance, an error-free one is removed exactly, and no prefilter intervenes; for regular 5', regular 3' and 'anywhere' adapters (indels enabled or disabled), an error-free copy of the whole adapter "
     "anywhere in the read is always found by the aligner (C02_full_copy_found, C02_locate_full_copy: the DP cells on the diagonal of the copy are tracked exactly and cannot be cut off). "
     "PARTIAL: completeness of the banded DP for occurrences with errors and for partial occurrences, non-internal adapters and anchored adapters with indels, the three cut-position "
     "clauses, and that the k-mer prefilter lets such reads through, are not theorems; they rest on the correspondence (model match_to_prefiltered = implementation match_to for all eight classes) and on oracle_C02 "
